@@ -47,14 +47,18 @@ def round_down_timestamp(timestamp: datetime, timeframe: timedelta) -> datetime:
     Note: This method also calls clean_timestamp, removing microseconds
     """
     timestamp = clean_timestamp(timestamp)
-    return datetime.fromtimestamp(
-        timestamp.timestamp() // timeframe.total_seconds() * timeframe.total_seconds()
-    )
+    return timestamp - (timestamp - _epoch(timestamp)) % timeframe
 
 
 def on_timeframe(timestamp: datetime, timeframe: timedelta) -> bool:
     """Checks if timestamp is on a timeframe value"""
-    return timestamp.timestamp() % timeframe.total_seconds() == 0
+    return (timestamp - _epoch(timestamp)) % timeframe == timedelta(0)
+
+
+def _epoch(timestamp: datetime) -> datetime:
+    """Bucket edges are counted on the timestamp's own clock (1970-01-01 00:00 of that clock),
+    never through the time zone of the running process"""
+    return datetime(1970, 1, 1, tzinfo=timestamp.tzinfo)
 
 
 def clean_timestamp(timestamp: datetime) -> datetime:
